@@ -165,6 +165,12 @@ def prepare_config(cfg: dict, ctx: RunContext) -> dict:
     opt = cfg.setdefault("optimizer", {})
     if isinstance(opt.get("options"), dict) and "script" in opt["options"]:
         opt["options"]["run"] = ctx.run_id
+    if isinstance(opt.get("options"), dict):
+        # option values written as {"__np__": dtype, "value": v} stand for NumPy scalars (what a user gets from
+        # arithmetic on arrays), which a JSON scenario cannot hold directly
+        for key, val in list(opt["options"].items()):
+            if isinstance(val, dict) and "__np__" in val:
+                opt["options"][key] = getattr(np, val["__np__"])(val["value"])
     return cfg
 
 
@@ -254,6 +260,11 @@ def _run_built(ctx: RunContext, built: dict, configs: list[dict], variables=None
                 raise
         except SimEvaluatorError as exc:
             ctx.exits.append(("evaluator_error", st["index"], str(exc)))
+            if built["level"] > 0:
+                raise
+        except KeyboardInterrupt as exc:
+            # (raised by the simulated user evaluator, fault kind "interrupt")
+            ctx.exits.append(("evaluator_interrupt", st["index"], str(exc)))
             if built["level"] > 0:
                 raise
         except OptimizationAborted as exc:
